@@ -2,7 +2,7 @@
    Statements only: each theorem restates a lemma of Theorems.v and is closed by [exact]. *)
 From stdpp Require Import gmap list.
 From Coq Require Import NArith.
-From G Require Import Arith Monad Types Inv Raw RawProofs Map MapProofs IterProofs CloneProofs Cost EntryProofs EntryCost Ledger SetProofs Fill WorldProofs Theorems.
+From G Require Import Arith Monad Types Inv Raw RawProofs Map MapProofs IterProofs CloneProofs Cost EntryProofs EntryCost Ledger SetProofs Conserve Fill WorldProofs Theorems.
 Local Open Scope N_scope.
 
 (* storing a new element - with whatever growing (the main table becomes the old one) and
@@ -22,6 +22,24 @@ Theorem C06_insert_drops_duplicate_key_only : forall c k kid v s o s',
   | None => dks s' = dks s /\ o = None
   end.
 Proof. exact T_C06_insert. Qed.
+
+(* calls that take objects in.  insert: the key object given is afterwards stored or dropped, the
+   value given is stored, the value it displaced is handed back; extend: every key and value of
+   the items is afterwards stored or dropped (a key whose key was present, a displaced value) -
+   each object exactly once, whatever growing and moving the call performs *)
+Theorem C06_insert_conserves : forall c k kid v s o s',
+  Inv (cR c) (cesz c) (s_rt s) -> map_insert c k kid v s = Ok o s' ->
+  Inv (cR c) (cesz c) (s_rt s') /\
+  dks s' ++ map ekid (elems (s_rt s')) ≡ₚ kid :: dks s ++ map ekid (elems (s_rt s)) /\
+  match o with Some v0 => [v0] | None => [] end ++ dvs s' ++ map ev (elems (s_rt s')) ≡ₚ v :: dvs s ++ map ev (elems (s_rt s)).
+Proof. exact T_C06_insert_conserves. Qed.
+
+Theorem C06_extend_conserves : forall c items hint s u s',
+  Inv (cR c) (cesz c) (s_rt s) -> hint <= usize_max -> map_extend c items hint s = Ok u s' ->
+  Inv (cR c) (cesz c) (s_rt s') /\
+  dks s' ++ map ekid (elems (s_rt s')) ≡ₚ kids_of items ++ dks s ++ map ekid (elems (s_rt s)) /\
+  dvs s' ++ map ev (elems (s_rt s')) ≡ₚ vals_of items ++ dvs s ++ map ev (elems (s_rt s)).
+Proof. exact T_C06_extend_conserves. Qed.
 
 (* remove_entry / remove / take hand the stored key and value back; the map drops neither, also
    when the removal releases the (then empty) old table *)
@@ -111,6 +129,8 @@ Proof. exact T_C06_lite_reachable. Qed.
 
 Print Assumptions C06_moves_drop_nothing.
 Print Assumptions C06_insert_drops_duplicate_key_only.
+Print Assumptions C06_insert_conserves.
+Print Assumptions C06_extend_conserves.
 Print Assumptions C06_remove_hands_back.
 Print Assumptions C06_lookup_drops_nothing.
 Print Assumptions C06_reserve_drops_nothing.
